@@ -106,6 +106,7 @@ func checkC10(p *Program, r *Result) {
 	emitBoundReports(p, r, ba, "C10.a", suppress)
 	r.rule("C10.d", "fixed-position reads of a record buffer follow a minimum-length test", 1)
 	checkParserMinLength(p, r, "C10.d")
+	checkFixedWidthLoops(p, r, "C10.d", sortedFuncs(scope))
 	r.rule("C10.k", "a checked value plus a constant still fits: the guard leaves room for what is added", 1)
 	checkAdditiveBounds(p, r, "C10.k", sortedFuncs(scope), nil)
 	checkSumBounds(p, r, "C10.k", sortedFuncs(scope))
